@@ -91,6 +91,15 @@ def run(rep, tier):
                 a, pos = cond_atoms(e)
                 # normalised: "X < get_global_activity_count()" with X = (get_self_ptr() != nullptr ? 1 : 0)
                 good = pos and a.endswith("< get_global_activity_count()") and "get_self_ptr()" in a and "? 1 : 0" in a
+    from engine.kinds import bypass_path
+    byp = bypass_path(w, lambda e: len(yw) == 1 and e is yw[0][2])
+    if good and byp is not None:
+        rets = [loc_of(e) for b in byp for e in w.blocks[b].events if e.get("k") == "return"]
+        rep.bad("C05.R2", w, rets[0] if rets else w.loc, "wait-bypass", "thread_manager::wait can return without polling the global activity count "
+                "(path through blocks %s): a sampled/secondary idleness test is not exact while tasks migrate between queues, so "
+                "pika::wait() can return while a task is still pending" % byp, path=[{"block": b} for b in byp])
+    elif good:
+        rep.ok("C05.R2", w, "every path through wait() polls the activity count")
     if good:
         rep.ok("C05.R2", w, "waits while activity count > (called from a task ? 1 : 0)")
     else:
